@@ -24,6 +24,17 @@ strengthened = {
     "C18-c": "control world: sessions are built on a real (never started) server object instead of a stub, so the seed is caught for the right reason (deadlock), not for a missing attribute",
     "C19-c": "C19: a dead socket file may already sit at the Unix socket path when the server starts",
     "C20-c": "C20: falsy / None items and a consumer holding two nested blocks of the same queue",
+    "C01-d": "C01: an empty pool may be reconfigured to a larger size (grow-only, also twice in one tick) before the fixed-size phase starts",
+    "C04-d": "C04: occasional pool_size assignments in the C04 generator",
+    "C05-d": "C05: empty elements () / [] / {} for starmap / doublestarmap (func() must be called without arguments)",
+    "C11-d": "C11: pools named with the empty string (shown under their index) take part in the distinct-names check",
+    "C12-d": "injected exceptions are instances of several builtin families (TypeError, ValueError, KeyError, RuntimeError, OSError), still compared by identity",
+    "C14-d": "C14: two SimpleTaskPools in one loop",
+    "C15-d": "C15: new 'session' family - pool_size read and assigned through control commands, compared with a twin pool",
+    "C16-d": "C16: subclass members with blank and missing docstrings",
+    "C17-d": "C17: empty-string values (mid-line) and values containing TAB / NBSP / ideographic space",
+    "C18-d": "C18: new 'sockets' family - several clients of one real Unix/TCP server, the first one leaves",
+    "C19-d": "C19: clients that send a blank line (or nothing) and leave without a handshake; SIGALRM watchdog that turns a spinning handler (loop stuck inside one handle) into a violation; unique pool names so that a recycled TCP port of another process is not mistaken for the stopped server",
     "C18-b": "C18: failing tasks in the pre-population and explicit waiting commands in the line mix (detection was borderline)",
 }
 rows = {}
